@@ -172,6 +172,7 @@ template<class T, int D> struct Holder : Base<T> {
 		if(n == "index") {
 			if constexpr(D >= 2) { return wrap<T>(v[a[0]]); } else { throw unsupported("index on rank 1"); }
 		}
+		if(n == "nop") { return wrap<T>(v()); }
 		if(n == "sliced") { return wrap<T>(v.sliced(a[0], a[1])); }
 		if(n == "sliceds") { return wrap<T>(v.sliced(a[0], a[1], a[2])); }
 		if(n == "strided") { return wrap<T>(v.strided(a[0])); }
